@@ -283,6 +283,11 @@ func grpcReuseCase(r *Recorder, overlap bool, recLen, bufLen int) {
 func TestC15(t *testing.T) {
 	r := NewRecorder(t, "C15")
 	defer r.Close(t)
+	// the TCP variant's transparent chunking across a write timeout (what Write and Flush report is
+	// what reaches the peer)
+	for _, tc := range [][2]int{{70000, 65535 + 34 + 18 + 1000}, {150000, 2*(65535+34) + 18 + 7}} {
+		chunkedWriteResumeCase(r, "C15", tc[0], tc[1])
+	}
 	for _, overlap := range []bool{false, true} {
 		for _, sz := range [][2]int{{1000, 100}, {40000, 4096}, {10, 1}} {
 			grpcReuseCase(r, overlap, sz[0], sz[1])
